@@ -1,10 +1,53 @@
 (* C06 — the finalizer is never released early, always released eventually.
-   Only statements here; model in Model/Finalizers.v, proofs in Proofs/Finalizers.v (list edits, decision points)
-   and Proofs/FinalizersLts.v (the life of one object's finalizer list: all label sequences).
-   Quantification: JSON bodies, fn lists, handler lists with their filter oracles, delays, label sequences and the
-   oracles inside the labels are unbounded. *)
+   Only statements here; model in Model/Finalizers.v (list edits, decision points, life-cycle LTS) and
+   Model/FinalizersDaemon.v (staged stop of a daemon, the LTS with a clock); proofs in Proofs/Finalizers.v,
+   Proofs/FinalizersLts.v, Proofs/FinalizersQuiet.v, Proofs/FinalizersDaemon.v.
+   Quantification: JSON bodies, fn lists, handler lists with their filter oracles, delays, times, stoppers, label
+   sequences and the oracles inside the labels are unbounded.
+
+   CLAUSE AUDIT (statement + quantifier of properties.jsonl)
+   -----------------------------------------------------------------------------------------------------------------
+   clause                                              | how it is covered
+   -----------------------------------------------------------------------------------------------------------------
+   A  while a matching mandatory deletion handler has  | FALSE of the faithful model as stated:
+      not finished the finalizer stays, under every    |   C06_not_released_early_refuted          (finding F8: shared id)
+      interleaving of events, retries, 422s, restarts  |   C06_not_released_early_calm_needed      (finding F601: carried release)
+                                                       | strongest true statement, all label sequences:
+                                                       |   C06_not_released_early_steady  (ids unshared; label/spec edits may
+                                                       |     happen whenever they keep the filters' verdicts or the operator is
+                                                       |     quiescent for the object - exactly what F601 needs is excluded)
+                                                       |   C06_not_released_early_partial (older, stronger guard: no edits)
+                                                       | one pass, no guard at all: C06_release_only_if
+   B  ... or a matching daemon/timer that has neither  | C06_daemon_abandoned_after_timeouts (ALL timed histories: abandoned =>
+      exited nor been abandoned after its timeouts     |   timeout configured, declared >= backoff+timeout after the stop was
+                                                       |   requested; cancelled only after the backoff),
+                                                       | C06_not_released_early_daemon (timed, calm+unshared: at a release D has
+                                                       |   no task or was abandoned after its timeouts),
+                                                       | C06_not_released_early_steady (a daemon still running at a release does
+                                                       |   not match), one call: C06_daemon_stop_abandoned/_cancelled/_holds
+   C  once all of them are finished it is removed so   | C06_released_eventually, C06_released_eventually_stop (enabledness from
+      that deletion proceeds                           |   EVERY state), C06_released_after_timeouts (with the clock: after
+                                                       |   backoff+timeout whatever the task does), C06_daemon_stop_exhausted,
+                                                       |   one pass: C06_release_when_finished.  Fairness (the cycle does run,
+                                                       |   nobody interferes forever) is the history level's (C03) - not here.
+   D  it is added/removed when handlers start/stop     | C06_added_removed_on_matching, C06_requires_iff (match for spawning
+      requiring (matching) the object                  |   handlers minus forever_stopped, prematch for changing handlers),
+                                                       |   C06_never_added_while_deleting, C06_dedicated_pass;
+                                                       |   request level: C06_add_request_while_deleting_refuted /
+                                                       |   C06_add_while_deleting_partial (harmless: the server refuses)
+   E  finalizers owned by others are never added,      | C06_foreign_untouched (all label sequences, all configurations),
+      dropped or reordered                             |   C06_foreign_untouched_json, C06_block_effect, C06_allow_effect,
+                                                       |   C06_edit_atomic, C06_lists_are_json_edits
+   Q  quantifier: deletion requests (LDelete), label/  | all are labels of the LTS; handler failures are the oracle k_h_finishes =
+      spec edits (LMatch), foreign finalizer edits     |   false / delays of the others; 422 = LJson on a moved resourceVersion;
+      (LForeign), handler failures, 422s, restarts     |   restarts = LRestart.  Guarded only in clause A/B as said above.
+   -----------------------------------------------------------------------------------------------------------------
+   Not covered here: liveness under fairness (history level, C03); daemons other than by the staged stop of ONE followed
+   daemon (the others are arbitrary oracles of the cycle label, so every theorem holds for each of them separately);
+   OPERATOR_PAUSING/EXITING stops (C09). *)
 From Coq Require Import ZArith List String Bool Ascii.
-From KV Require Import Base.Json Base.Dicts Model.Finalizers Proofs.Finalizers Proofs.FinalizersLts.
+From KV Require Import Base.Json Base.Dicts Model.Finalizers Model.FinalizersDaemon Proofs.Finalizers Proofs.FinalizersLts
+  Proofs.FinalizersQuiet Proofs.FinalizersDaemon.
 Import ListNotations.
 Open Scope string_scope.
 Open Scope list_scope.
@@ -192,3 +235,149 @@ Theorem C06_lists_are_json_edits : forall fin fns body l, fz_wellformed body = t
   exists b', fz_apply_fns fin fns body = Ok b' /\ fz_wellformed b' = true /\ fz_fins b' = map JStr (fl_apply_fns fin fns l).
 Proof. exact fz_apply_fns_bridge. Qed.
 Print Assumptions C06_lists_are_json_edits.
+
+(* ====================================================================================== *)
+(* Deepening round: weaker guard for clause A, the daemon clause B with the clock, clause C with the clock *)
+
+(* clause A/B under the weakest guard that the two findings leave: ids unshared (F8) and no edit that changes a
+   filter's verdict while a cycle is in progress or a release is carried (F601); every other label/annotation/spec
+   edit is admitted *)
+Theorem C06_not_released_early_steady : forall c, c_shared c = false -> forall fins a b tr s s',
+  fl_run_steady c (fl_init c fins a b) tr = Some s ->
+  fl_step c s LJson = Some s' -> fl_releases c s s' = true ->
+  (c_del c = true -> v_mdel (sv s) = true -> g_done s = true) /\
+  (fl_daemon_live (p_daemon s) = true -> v_mdmn (sv s) = false).
+Proof. exact fl_not_released_early_steady. Qed.
+Print Assumptions C06_not_released_early_steady.
+
+(* every calm history is a steady one (the older theorem's guard implies this one's) *)
+Theorem C06_calm_is_steady : forall c tr s s', forallb fl_calm tr = true -> fl_run c s tr = Some s' -> fl_run_steady c s tr = Some s'.
+Proof. exact fl_calm_steady. Qed.
+Print Assumptions C06_calm_is_steady.
+
+(* non-vacuity: a steady history that is not calm (the filter's label removed and set again while the operator is
+   quiescent, a spec edit racing with a cycle) and does release after H finished; and the F601 trace is not steady *)
+Theorem C06_steady_nonvacuous :
+  (exists s s', forallb fl_calm fq_trace = false /\
+    fl_run_steady fl_cfg_plain (fl_init fl_cfg_plain [] true false) fq_trace = Some s /\
+    fl_step fl_cfg_plain s LJson = Some s' /\ fl_releases fl_cfg_plain s s' = true /\ g_done s = true /\ v_mdel (sv s) = true) /\
+  fl_run_steady fl_cfg_plain (fl_init fl_cfg_plain [] true false) fl_trace_stale = None.
+Proof. exact (conj fq_nonvacuous fq_f601_not_steady). Qed.
+Print Assumptions C06_steady_nonvacuous.
+
+(* one call of stop_daemons on one daemon, for ALL handler configurations, times, stopper states and task behaviours *)
+Theorem C06_daemon_stop_abandoned : forall h y now w done0 i1 i2 i3,
+  r_out (fd_stop h y now w done0 i1 i2 i3) = SAbandoned ->
+  exists t, d_timeout h = Some t /\ t + fd_or0 (d_backoff h) <= fd_age now w /\
+            (forall b, d_backoff h = Some b -> b <= fd_age now w) /\
+            w_aband (r_w (fd_stop h y now w done0 i1 i2 i3)) = true /\
+            r_delays (fd_stop h y now w done0 i1 i2 i3) = [].
+Proof. exact fd_stop_abandoned. Qed.
+Print Assumptions C06_daemon_stop_abandoned.
+
+Theorem C06_daemon_stop_cancelled : forall h y now w done0 i1 i2 i3,
+  r_cancel (fd_stop h y now w done0 i1 i2 i3) = true -> (fd_or0 (d_backoff h) <= fd_age now w)%Z \/ d_backoff h = None.
+Proof. exact fd_stop_cancelled. Qed.
+Print Assumptions C06_daemon_stop_cancelled.
+
+(* the finalizer is held (a delay is reported) exactly while the outcome is "still stopping" *)
+Theorem C06_daemon_stop_delays : forall h y now w done0 i1 i2 i3,
+  (r_out (fd_stop h y now w done0 i1 i2 i3) = SStill <-> r_delays (fd_stop h y now w done0 i1 i2 i3) <> []).
+Proof. exact fd_stop_delays. Qed.
+Print Assumptions C06_daemon_stop_delays.
+
+(* never early: a task that keeps running holds the finalizer until backoff+timeout are over - forever without a timeout *)
+Theorem C06_daemon_stop_holds : forall h y now w,
+  (forall t, d_timeout h = Some t -> (fd_age now w < t + fd_or0 (d_backoff h))%Z) ->
+  r_out (fd_stop h y now w false false false false) = SStill.
+Proof. exact fd_stop_holds. Qed.
+Print Assumptions C06_daemon_stop_holds.
+
+(* eventually: once backoff+timeout are over, no delay is reported whatever the task does *)
+Theorem C06_daemon_stop_exhausted : forall h y now w done0 i1 i2 i3 t,
+  d_timeout h = Some t -> (0 <= t)%Z -> (t + fd_or0 (d_backoff h) <= fd_age now w)%Z ->
+  r_delays (fd_stop h y now w done0 i1 i2 i3) = [].
+Proof. exact fd_stop_exhausted. Qed.
+Print Assumptions C06_daemon_stop_exhausted.
+
+(* non-vacuity of the stages (backoff 5, timeout 10, stop requested at 100): signalled at 102, cancelled at 105, still
+   held at 114, abandoned at 115 *)
+Theorem C06_daemon_stop_stages :
+  r_delays (fd_stop fd_ex_h WDeleted 102 fd_ex_w false false false false) = [3%Z] /\
+  r_cancel (fd_stop fd_ex_h WDeleted 105 fd_ex_w false false false false) = true /\
+  r_out (fd_stop fd_ex_h WDeleted 114 fd_ex_w false false false false) = SStill /\
+  r_out (fd_stop fd_ex_h WDeleted 115 fd_ex_w false false false false) = SAbandoned.
+Proof. exact (conj (proj2 fd_ex_signal) (conj (proj1 fd_ex_cancel) (conj fd_ex_not_yet fd_ex_abandon))). Qed.
+Print Assumptions C06_daemon_stop_stages.
+
+(* the LTS with a clock refines the untimed one: every theorem above about fl_run holds of its histories *)
+Theorem C06_timed_refines : forall h c tr s s', fd_run h c s tr = Some s' ->
+  exists btr, fl_run c (fb s) btr = Some (fb s') /\ (forallb fd_calm tr = true -> forallb fl_calm btr = true).
+Proof. exact fd_run_base. Qed.
+Print Assumptions C06_timed_refines.
+
+(* clause B, ALL timed histories (any configuration, filters changing, ids shared or not) *)
+Theorem C06_daemon_abandoned_after_timeouts : forall h c fins a b t0 tr s,
+  fd_run h c (fd_init c fins a b t0) tr = Some s ->
+  (p_daemon (fb s) = DAbandoned ->
+     exists t w ab, d_timeout h = Some t /\ w_when (f_w s) = Some w /\ f_aband_at s = Some ab /\
+                    (w + t + fd_or0 (d_backoff h) <= ab)%Z /\ (ab <= f_now s)%Z) /\
+  (forall x, f_cancel_at s = Some x ->
+     exists w, w_when (f_w s) = Some w /\ ((w + fd_or0 (d_backoff h) <= x)%Z \/ d_backoff h = None) /\ (w <= x)%Z /\ (x <= f_now s)%Z).
+Proof. exact fd_abandoned_after_timeouts. Qed.
+Print Assumptions C06_daemon_abandoned_after_timeouts.
+
+Theorem C06_not_released_early_daemon : forall h c, c_shared c = false -> forall fins a b t0 tr s s' i1 i2 i3,
+  forallb fd_calm tr = true -> fd_run h c (fd_init c fins a b t0) tr = Some s ->
+  fd_step h c s (TBase LJson i1 i2 i3) = Some s' -> fl_releases c (fb s) (fb s') = true ->
+  (c_del c = true -> v_mdel (sv (fb s)) = true -> g_done (fb s) = true) /\
+  (fd_in_dict (p_daemon (fb s)) = false \/
+   (p_daemon (fb s) = DAbandoned /\
+    exists t w ab, d_timeout h = Some t /\ w_when (f_w s) = Some w /\ f_aband_at s = Some ab /\
+                   (w + t + fd_or0 (d_backoff h) <= ab)%Z /\ (ab <= f_now s)%Z)).
+Proof. exact fd_not_released_early. Qed.
+Print Assumptions C06_not_released_early_daemon.
+
+(* non-vacuity: the daemon ignores flag and cancellation; flagged at 0, cancelled at 5, still held at 14 (delay 1),
+   abandoned at 15 = backoff+timeout, and only then the finalizer goes *)
+Theorem C06_daemon_history_nonvacuous :
+  (exists s s', forallb fd_calm fd_ex_trace = true /\
+    fd_run fd_ex_h fd_ex_cfg (fd_init fd_ex_cfg [] false true 0) fd_ex_trace = Some s /\
+    fd_step fd_ex_h fd_ex_cfg s (fd_b LJson) = Some s' /\ fl_releases fd_ex_cfg (fb s) (fb s') = true /\
+    p_daemon (fb s) = DAbandoned /\ f_aband_at s = Some 15%Z /\ f_cancel_at s = Some 5%Z /\ w_when (f_w s) = Some 0%Z) /\
+  (exists s, fd_run fd_ex_h fd_ex_cfg (fd_init fd_ex_cfg [] false true 0) (firstn 12 fd_ex_trace) = Some s /\
+    p_daemon (fb s) = DStopping /\ fl_mem "kopf" (v_fins (sv (fb s))) = true /\ p_flight (fb s) = FNone /\ p_carried (fb s) = []).
+Proof. exact (conj fd_ex_history fd_ex_held). Qed.
+Print Assumptions C06_daemon_history_nonvacuous.
+
+(* clause C with D's stop outcome as a parameter, and with the clock *)
+Theorem C06_released_eventually_stop : forall c s stop,
+  p_flight s = FNone -> p_carried s = [] ->
+  v_alive (sv s) = true -> v_deleting (sv s) = true -> fl_mem (c_own c) (v_fins (sv s)) = true ->
+  snd (fl_spawning c (sv s) (p_daemon s) (p_forever s) stop) = [] ->
+  exists s', fl_run c s [LEvent; LCycle (fl_k_quiet_stop stop); LMerge; LJson] = Some s' /\
+             fl_mem (c_own c) (v_fins (sv s')) = false /\
+             v_fins (sv s') = fl_foreign (c_own c) (v_fins (sv s)) /\
+             p_carried s' = [] /\ p_flight s' = FNone.
+Proof. exact fl_released_eventually_stop. Qed.
+Print Assumptions C06_released_eventually_stop.
+
+Theorem C06_released_after_timeouts : forall h c s t dt i1 i2 i3,
+  p_flight (fb s) = FNone -> p_carried (fb s) = [] ->
+  v_alive (sv (fb s)) = true -> v_deleting (sv (fb s)) = true -> fl_mem (c_own c) (v_fins (sv (fb s))) = true ->
+  d_timeout h = Some t -> (0 <= t)%Z -> (0 <= dt)%Z ->
+  (t + fd_or0 (d_backoff h) <= fd_age (f_now s + dt) (f_w s))%Z ->
+  exists s', fd_run h c s [TTick dt; TBase LEvent false false false; TBase (LCycle (fl_k_quiet_stop SStill)) i1 i2 i3;
+                           TBase LMerge false false false; TBase LJson false false false] = Some s' /\
+             fl_mem (c_own c) (v_fins (sv (fb s'))) = false /\
+             v_fins (sv (fb s')) = fl_foreign (c_own c) (v_fins (sv (fb s))).
+Proof. exact fd_released_after_timeouts. Qed.
+Print Assumptions C06_released_after_timeouts.
+
+Theorem C06_released_after_timeouts_nonvacuous :
+  exists s, fd_run fd_ex_h fd_ex_cfg (fd_init fd_ex_cfg [] false true 0) (firstn 12 fd_ex_trace) = Some s /\
+    p_flight (fb s) = FNone /\ p_carried (fb s) = [] /\ v_alive (sv (fb s)) = true /\ v_deleting (sv (fb s)) = true /\
+    fl_mem (c_own fd_ex_cfg) (v_fins (sv (fb s))) = true /\ d_timeout fd_ex_h = Some 10%Z /\
+    (10 + fd_or0 (d_backoff fd_ex_h) <= fd_age (f_now s + 1) (f_w s))%Z /\ fl_daemon_live (p_daemon (fb s)) = true.
+Proof. exact fd_ex_released_hyps. Qed.
+Print Assumptions C06_released_after_timeouts_nonvacuous.
